@@ -10,9 +10,20 @@
 //	go-statement      a goroutine is started
 //	sync-use / atomic-use / unsafe-use
 //	param-store / param-mapupdate / param-append
-//	                  a write into memory provided by the caller of an exported non-setter function (inputs must stay unmodified);
-//	                  found by an interprocedural flow analysis from the parameters of the roots, followed into the standard library
-//	                  (sort.Strings(input) is reported at the swap inside package slices)
+//	                  a write into memory provided by the caller of an exported function (inputs must stay unmodified); found by an
+//	                  interprocedural flow analysis from the parameters of the roots, followed through callees and interface calls into
+//	                  the standard library (sort.Strings(input) is reported at the swap inside package slices, sort.Slice(input, ..) at the
+//	                  call of reflectlite.Swapper). Documented mutators (Set*/Reset*, (*HighSpatialID).Merge, spatial.UniqueAppend) may
+//	                  change their first operand, but that operand is seeded with what the functions returning its type keep of THEIR
+//	                  arguments: a constructor that keeps a reference makes a later mutator write another call's argument.
+//	std-state-call    a direct call into a package of the standard library outside a list of state-free ones (os.Setenv, os.Chdir, files,
+//	                  network, log/flag settings, the default math/rand source, runtime settings)
+//	reflect-use       a direct call into reflect
+//
+// Function values created by package initialisers (a closure stored in a package-level variable) are resolved as callees, and the variables
+// such closures capture count as package-level state.
+// Not covered (trusted absent): writes through reflect values or unsafe pointers inside dependencies, cgo/assembly, state kept outside the
+// process. The regression list of the scanner itself: regress.sh / regress/ (20 mutants of /repo, each must produce its kind).
 //
 // Output: a Coq file `Definition shared_sites : list site := [...]` (site is defined in coq/theories/Conc.v) and STAT lines.
 // Trusted: go/packages, go/ssa, RTA (sound for programs without reflection/unsafe on the paths concerned), and this file.
@@ -73,6 +84,18 @@ func fnPkgPath(fn *ssa.Function) string {
 		}
 	}
 	return ""
+}
+
+func hasInitAncestor(fn *ssa.Function) bool {
+	if fn == nil {
+		return false
+	}
+	for p := fn.Parent(); p != nil; p = p.Parent() {
+		if isInit(p) && !isStd(fnPkgPath(p)) {
+			return true
+		}
+	}
+	return false
 }
 
 func isInit(fn *ssa.Function) bool {
@@ -290,6 +313,49 @@ func calleePkg(c *ssa.CallCommon) (string, string) {
 	return "", ""
 }
 
+// Packages of the standard library whose functions keep no state between calls that a caller could observe (pure computations on their
+// arguments and on memory they allocate). A direct call from the library (or its dependencies) into any other package of the standard
+// library is listed as `std-state-call`: process-global state lives there (environment, working directory, files, sockets, the default
+// math/rand source, the log/flag singletons, runtime settings), where the scan of package-level variables does not look.
+var pureStd = map[string]bool{
+	"errors": true, "fmt": true, "math": true, "math/big": true, "math/bits": true, "math/cmplx": true, "sort": true, "slices": true, "maps": true,
+	"strconv": true, "strings": true, "bytes": true, "unicode": true, "unicode/utf8": true, "unicode/utf16": true, "cmp": true, "container/heap": true,
+	"container/list": true, "container/ring": true, "encoding/binary": true, "encoding/hex": true, "encoding/json": true, "hash/fnv": true, "hash/crc32": true,
+	"regexp": true, "text/tabwriter": true, "bufio": true, "io": true, "iter": true, "unique": false, "time": true,
+	"sync": true, "sync/atomic": true, "unsafe": true, "reflect": true, "internal/reflectlite": true, // listed under their own kinds
+}
+
+func stdStateCall(pkg, name string, c *ssa.CallCommon) string {
+	switch pkg {
+	case "fmt":
+		if strings.HasPrefix(name, "Print") || strings.HasPrefix(name, "Scan") && !strings.HasPrefix(name, "Sscan") {
+			return "writes/reads the process's standard streams"
+		}
+		return ""
+	case "time":
+		switch name {
+		case "Sleep", "After", "AfterFunc", "Tick", "NewTimer", "NewTicker", "LoadLocation":
+			return "timers / time-zone database"
+		}
+		return ""
+	case "log":
+		// printing through the standard logger is synchronised output that no call reads back; its settings are state
+		if strings.HasPrefix(name, "Print") || strings.HasPrefix(name, "Panic") || strings.HasPrefix(name, "Fatal") || name == "Output" {
+			return ""
+		}
+		return "settings of the process-wide standard logger"
+	case "math/rand", "math/rand/v2":
+		if c.Signature().Recv() == nil && !strings.HasPrefix(name, "New") {
+			return "the default random source is shared by the whole process"
+		}
+		return ""
+	}
+	if pureStd[pkg] {
+		return ""
+	}
+	return "package outside the list of state-free standard packages (environment, files, network, logging, flags, runtime settings ...)"
+}
+
 func mentionsUnsafe(t types.Type) bool {
 	b, ok := t.Underlying().(*types.Basic)
 	return ok && b.Kind() == types.UnsafePointer
@@ -358,7 +424,14 @@ func scanGlobals(fn *ssa.Function) {
 				continue
 			}
 			pkg, name := calleePkg(c)
+			if pkg != "" && isStd(pkg) {
+				if why := stdStateCall(pkg, name, c); why != "" {
+					addSite(fn, ins, "std-state-call", pkg+"."+name+": "+why)
+				}
+			}
 			switch pkg {
+			case "reflect", "internal/reflectlite":
+				addSite(fn, ins, "reflect-use", pkg+"."+name)
 			case "sync":
 				addSite(fn, ins, "sync-use", "sync."+name)
 			case "sync/atomic":
@@ -405,7 +478,7 @@ type taint struct {
 	queue   []*ssa.Function
 	inq     map[*ssa.Function]bool
 	visited map[*ssa.Function]bool
-	cg      *callgraph.Graph
+	cg      *cgraph
 	roots   map[*ssa.Function]bool
 	global  bool // sources are the package-level variables (outside std) instead of the parameters of the roots
 }
@@ -416,6 +489,10 @@ func (t *taint) get(v ssa.Value) *tinfo {
 	}
 	if t.global {
 		if _, ok := sharedGlobal(v); ok {
+			return &tinfo{lvl: 2}
+		}
+		// a variable captured by a closure that a package initialiser created lives as long as the process: shared between calls
+		if fv, ok := v.(*ssa.FreeVar); ok && hasInitAncestor(fv.Parent()) {
 			return &tinfo{lvl: 2}
 		}
 	}
@@ -554,15 +631,90 @@ func (t *taint) push(fn *ssa.Function, origin string) {
 	}
 }
 
-func (t *taint) callees(fn *ssa.Function, ci ssa.CallInstruction) []*ssa.Function {
-	var out []*ssa.Function
-	if n := t.cg.Nodes[fn]; n != nil {
+// cgraph: the call edges used by the scan. Interface calls and static calls are resolved by the analysis rooted at the API; calls through
+// function values are resolved by the analysis that also knows the package initialisers (a closure stored in a package-level variable).
+type cgraph struct {
+	out map[ssa.CallInstruction][]*ssa.Function
+	in  map[*ssa.Function][]*ssa.Function
+}
+
+func (g *cgraph) add(caller *ssa.Function, site ssa.CallInstruction, callee *ssa.Function) {
+	if site == nil || callee == nil {
+		return
+	}
+	for _, f := range g.out[site] {
+		if f == callee {
+			return
+		}
+	}
+	g.out[site] = append(g.out[site], callee)
+	g.in[callee] = append(g.in[callee], caller)
+}
+
+func isFuncValueCall(ci ssa.CallInstruction) bool {
+	c := ci.Common()
+	if c.IsInvoke() || c.StaticCallee() != nil {
+		return false
+	}
+	_, isBuiltin := c.Value.(*ssa.Builtin)
+	return !isBuiltin
+}
+
+// function values created by the package initialisers (closures defined in them, named functions mentioned as values in them)
+func initFuncValues(inits []*ssa.Function) map[*ssa.Function]bool {
+	out := map[*ssa.Function]bool{}
+	var walk func(f *ssa.Function)
+	walk = func(f *ssa.Function) {
+		var ops []*ssa.Value
+		for _, b := range f.Blocks {
+			for _, ins := range b.Instrs {
+				ops = ins.Operands(ops[:0])
+				for k, o := range ops {
+					if o == nil {
+						continue
+					}
+					if fv, ok := (*o).(*ssa.Function); ok {
+						// operand 0 of a call is the callee, not a function value that escapes
+						if ci, isCall := ins.(ssa.CallInstruction); isCall && k == 0 && ci.Common().StaticCallee() == fv {
+							continue
+						}
+						out[fv] = true
+					}
+				}
+			}
+		}
+		for _, af := range f.AnonFuncs {
+			out[af] = true
+			walk(af)
+		}
+	}
+	for _, f := range inits {
+		walk(f)
+	}
+	return out
+}
+
+func buildGraph(api, withInits *callgraph.Graph, fromInit map[*ssa.Function]bool) *cgraph {
+	g := &cgraph{out: map[ssa.CallInstruction][]*ssa.Function{}, in: map[*ssa.Function][]*ssa.Function{}}
+	for fn, n := range api.Nodes {
 		for _, e := range n.Out {
-			if e.Site == ci && e.Callee != nil && e.Callee.Func != nil {
-				out = append(out, e.Callee.Func)
+			if e.Callee != nil {
+				g.add(fn, e.Site, e.Callee.Func)
 			}
 		}
 	}
+	for fn, n := range withInits.Nodes {
+		for _, e := range n.Out {
+			if e.Callee != nil && e.Site != nil && isFuncValueCall(e.Site) && fromInit[e.Callee.Func] {
+				g.add(fn, e.Site, e.Callee.Func)
+			}
+		}
+	}
+	return g
+}
+
+func (t *taint) callees(fn *ssa.Function, ci ssa.CallInstruction) []*ssa.Function {
+	out := t.cg.out[ci]
 	if len(out) == 0 {
 		if f := ci.Common().StaticCallee(); f != nil {
 			out = append(out, f)
@@ -722,11 +874,9 @@ func (t *taint) process(fn *ssa.Function) {
 						if i.lvl > 0 && pointerLike(r.Type()) {
 							if t.raiseRet(fn, i.lvl, i.held) {
 								// callers must look again
-								if n := t.cg.Nodes[fn]; n != nil {
-									for _, e := range n.In {
-										if e.Caller != nil && t.visited[e.Caller.Func] {
-											t.push(e.Caller.Func, t.origin[e.Caller.Func])
-										}
+								for _, cf := range t.cg.in[fn] {
+									if t.visited[cf] {
+										t.push(cf, t.origin[cf])
 									}
 								}
 							}
@@ -803,6 +953,14 @@ func (t *taint) process(fn *ssa.Function) {
 					args = append([]ssa.Value{c.Value}, c.Args...)
 				}
 				for _, cf := range callees {
+					if pp := fnPkgPath(cf); (pp == "reflect" || pp == "internal/reflectlite") && reflectWrites[cf.Name()] {
+						for _, a := range args {
+							if t.get(a).lvl >= 1 {
+								t.siteHere(fn, ins, "param-store", "written through reflection ("+pp+"."+cf.Name()+")")
+								break
+							}
+						}
+					}
 					if len(cf.Blocks) == 0 {
 						if !isStd(fnPkgPath(cf)) {
 							for _, a := range args {
@@ -856,11 +1014,9 @@ func (t *taint) process(fn *ssa.Function) {
 		}
 	}
 	if chg {
-		if n := t.cg.Nodes[fn]; n != nil {
-			for _, e := range n.In {
-				if e.Caller != nil && t.visited[e.Caller.Func] {
-					t.push(e.Caller.Func, t.origin[e.Caller.Func])
-				}
+		for _, cf := range t.cg.in[fn] {
+			if t.visited[cf] {
+				t.push(cf, t.origin[cf])
 			}
 		}
 		if p := fn.Parent(); p != nil && t.visited[p] {
@@ -872,6 +1028,11 @@ func (t *taint) process(fn *ssa.Function) {
 // Documented mutators: exported operations whose contract is to change their first operand, which therefore is not a read-only
 // argument: setters (Set*/Reset* with a pointer receiver), the accumulator (*HighSpatialID).Merge, and the append-like
 // spatial.UniqueAppend (returns the extended slice, like append). Every other parameter of these functions is still a source.
+// reflection entry points that write the memory their operand refers to (sort.Slice swaps the caller's slice through reflectlite.Swapper)
+var reflectWrites = map[string]bool{"Swapper": true, "Copy": true, "Set": true, "SetBool": true, "SetBytes": true, "SetComplex": true, "SetFloat": true,
+	"SetInt": true, "SetLen": true, "SetCap": true, "SetMapIndex": true, "SetIterKey": true, "SetIterValue": true, "SetPointer": true, "SetString": true,
+	"SetUint": true, "SetZero": true, "Clear": true, "Grow": true, "Send": true, "Append": true, "AppendSlice": true}
+
 func isSetter(fn *ssa.Function) bool {
 	recv := fn.Signature.Recv()
 	if recv == nil {
@@ -905,6 +1066,7 @@ func main() {
 	out := flag.String("out", "", "Coq file to write (SharedState.v)")
 	jsonOut := flag.String("json", "", "JSON file with the sites (optional)")
 	verbose := flag.Bool("v", false, "print every site")
+	tags := flag.String("tags", "verif", "build tags of the analysed tree (the race run builds the same source set)")
 	flag.Parse()
 	abs, err := filepath.Abs(*repo)
 	if err != nil {
@@ -922,7 +1084,7 @@ func main() {
 		}
 	}
 
-	cfg := &packages.Config{Mode: packages.LoadAllSyntax | packages.NeedModule, Dir: repoDir, Tests: false}
+	cfg := &packages.Config{Mode: packages.LoadAllSyntax | packages.NeedModule, Dir: repoDir, Tests: false, BuildFlags: []string{"-tags=" + *tags}}
 	pkgs, err := packages.Load(cfg, "./...")
 	if err != nil {
 		fmt.Println("BROKEN vscan: cannot load the module:", err)
@@ -999,12 +1161,50 @@ func main() {
 		}
 	}
 	sort.Slice(roots, func(i, j int) bool { return roots[i].String() < roots[j].String() })
+	// Two analyses: rooted at the API (what can run during a call), and rooted at the API plus the package initialisers of every package
+	// outside the standard library (so that function values created during initialisation are known: a closure stored in a package-level
+	// variable by an initialiser is a possible callee of a call through that variable). Code that runs only during initialisation
+	// happens before any call and is not scanned.
+	var inits []*ssa.Function
+	for _, p := range prog.AllPackages() {
+		if p == nil || p.Pkg == nil || isStd(p.Pkg.Path()) {
+			continue
+		}
+		if f := p.Func("init"); f != nil {
+			inits = append(inits, f)
+		}
+	}
+	sort.Slice(inits, func(i, j int) bool { return inits[i].String() < inits[j].String() })
 	res := rta.Analyze(roots, true)
+	res2 := rta.Analyze(append(append([]*ssa.Function{}, roots...), inits...), true)
+	graph := buildGraph(res.CallGraph, res2.CallGraph, initFuncValues(inits))
 
-	// functions whose bodies are scanned: everything reachable, plus the bodies of exported generic functions and their static callees
+	// functions whose bodies are scanned: everything reachable from the API roots, plus the bodies of exported generic functions and their static callees
 	scan := map[*ssa.Function]bool{}
-	for fn := range res.Reachable {
-		scan[fn] = true
+	{
+		var stack []*ssa.Function
+		push := func(f *ssa.Function) {
+			if f != nil && !scan[f] {
+				scan[f] = true
+				stack = append(stack, f)
+			}
+		}
+		for fn := range res.Reachable {
+			push(fn)
+		}
+		for len(stack) > 0 {
+			f := stack[len(stack)-1]
+			stack = stack[:len(stack)-1]
+			for _, b := range f.Blocks {
+				for _, ins := range b.Instrs {
+					if ci, ok := ins.(ssa.CallInstruction); ok {
+						for _, cf := range graph.out[ci] {
+							push(cf)
+						}
+					}
+				}
+			}
+		}
 	}
 	var addStatic func(fn *ssa.Function, depth int)
 	addStatic = func(fn *ssa.Function, depth int) {
@@ -1042,7 +1242,7 @@ func main() {
 
 	// writes into caller-provided memory
 	ta := &taint{info: map[ssa.Value]*tinfo{}, ret: map[*ssa.Function]*tinfo{}, origin: map[*ssa.Function]string{}, inq: map[*ssa.Function]bool{},
-		visited: map[*ssa.Function]bool{}, cg: res.CallGraph, roots: rootSet}
+		visited: map[*ssa.Function]bool{}, cg: graph, roots: rootSet}
 	nsrc := 0
 	var mutators []string
 	allRoots := append(append([]*ssa.Function{}, roots...), genericRoots...)
@@ -1074,9 +1274,86 @@ func main() {
 		os.Exit(2)
 	}
 
+	// What constructors keep: an exported function whose result holds references to memory provided by its caller (NewHighSpatialID kept the
+	// unit-ID map of its argument; NewUnitDividedSpatialID keeps the pointer to its argument). A documented mutator applied to such a result
+	// writes memory of another, possibly shared, argument: the receiver of every mutator is seeded with what the functions returning its
+	// type keep, and the flow analysis is continued. (The receiver itself stays exempt: changing it is the mutator's contract.)
+	namedOf := func(t types.Type) *types.Named {
+		if p, ok := t.Underlying().(*types.Pointer); ok {
+			t = p.Elem()
+		}
+		n, _ := t.(*types.Named)
+		return n
+	}
+	type kept struct {
+		held  []heldT
+		self  bool
+		ctors []string
+	}
+	keeps := map[*types.TypeName]*kept{}
+	for _, f := range allRoots {
+		r := ta.ret[f]
+		if r == nil || r.lvl == 0 {
+			continue
+		}
+		res := f.Signature.Results()
+		for i := 0; i < res.Len(); i++ {
+			n := namedOf(res.At(i).Type())
+			if n == nil || n.Obj().Pkg() == nil || isStd(n.Obj().Pkg().Path()) {
+				continue
+			}
+			k := keeps[n.Obj()]
+			if k == nil {
+				k = &kept{}
+				keeps[n.Obj()] = k
+			}
+			if r.lvl == 2 {
+				k.self = true
+			}
+			for _, h := range r.held {
+				k.held, _ = addHeld(k.held, h)
+			}
+			k.ctors = append(k.ctors, f.String())
+		}
+	}
+	nkeep := 0
+	for _, f := range allRoots {
+		if !isSetter(f) || len(f.Params) == 0 {
+			continue
+		}
+		n := namedOf(f.Params[0].Type())
+		if n == nil {
+			continue
+		}
+		k := keeps[n.Obj()]
+		if k == nil || (len(k.held) == 0 && !k.self) {
+			continue
+		}
+		lvl := uint8(1)
+		if k.self {
+			lvl = 2
+		}
+		if ta.raise(f.Params[0], lvl, k.held) {
+			nkeep++
+			sort.Strings(k.ctors)
+			ta.origin[f] = strings.Join(k.ctors, ", ") + " (kept by the result and written through the mutator " + f.String() + ")"
+			ta.push(f, ta.origin[f])
+		}
+	}
+	for ; len(ta.queue) > 0 && steps < 400000; steps++ {
+		fn := ta.queue[0]
+		ta.queue = ta.queue[1:]
+		ta.inq[fn] = false
+		ta.process(fn)
+	}
+	if len(ta.queue) > 0 {
+		fmt.Println("BROKEN vscan: flow analysis did not reach a fixed point")
+		os.Exit(2)
+	}
+
 	// writes into memory reachable from package-level variables (outside std), also through callees and interfaces
 	tg := &taint{info: map[ssa.Value]*tinfo{}, ret: map[*ssa.Function]*tinfo{}, origin: map[*ssa.Function]string{}, inq: map[*ssa.Function]bool{},
-		visited: map[*ssa.Function]bool{}, cg: res.CallGraph, roots: rootSet, global: true}
+		visited: map[*ssa.Function]bool{}, cg: graph, roots: rootSet, global: true}
 	ngl := map[*ssa.Global]bool{}
 	var scanned []*ssa.Function
 	for fn := range scan {
@@ -1087,6 +1364,9 @@ func main() {
 		path := fnPkgPath(fn)
 		if path == "" || isStd(path) || isInit(fn) {
 			continue
+		}
+		if len(fn.FreeVars) > 0 && hasInitAncestor(fn) {
+			tg.push(fn, "a variable captured by the closure "+fn.String()+" that a package initialiser created")
 		}
 		var ops []*ssa.Value
 		for _, b := range fn.Blocks {
@@ -1177,6 +1457,7 @@ func main() {
 	fmt.Printf("STAT functions_reached_by_caller_memory=%d\n", len(ta.visited))
 	sort.Strings(mutators)
 	fmt.Printf("STAT documented_mutators_first_operand_exempt=%d\n", len(mutators))
+	fmt.Printf("STAT mutator_receivers_seeded_with_what_constructors_keep=%d\n", nkeep)
 	var gl []string
 	for g := range ngl {
 		gl = append(gl, globalName(g))
